@@ -127,4 +127,26 @@ def mStep (A : Mat) : MOp → Except Err (Mat × List Rat)
 def mRun (A : Mat) (ops : List MOp) : Except Err (List Rat) :=
   match runS mStep A ops with | .ok (_, out) => .ok out | .error e => .error e
 
+
+/-! ## Chained compound assignment `(x += b) -= c …`
+
+`operator+=` / `operator-=` return a reference to the object they modified, so every further
+compound assignment applied to the returned object acts on `x` itself: the chain is the
+sequential application of its steps to the one value. -/
+
+/-- `((x ⊕₀ b₀) ⊕₁ b₁) …` with `⊕ = +=` (`true`) or `-=` (`false`); the result is what `x` holds afterwards -/
+def mChain (x : Mat) : List (Bool × Mat) → Except Err Mat
+  | [] => .ok x
+  | (pl, b) :: r =>
+    match (if pl then plusAssign x b else minusAssign x b) with
+    | .ok y => mChain y r
+    | .error e => .error e
+
+def vChain (x : Vec) : List (Bool × Vec) → Except Err Vec
+  | [] => .ok x
+  | (pl, b) :: r =>
+    match (if pl then vaddAssign x b else vsubAssign x b) with
+    | .ok y => vChain y r
+    | .error e => .error e
+
 end Lp.C04.Hist
